@@ -60,6 +60,15 @@ impl GrlReteLoader {
         Ok(loaded_count)
     }
 
+    /// Verification hook: the conversion + dependency extraction that `load_from_string`
+    /// performs, exposed so a harness can wrap the action closure of GRL-loaded rules.
+    #[cfg(feature = "verif-hooks")]
+    pub fn verif_convert_rule(rule: Rule) -> Result<(TypedReteUlRule, Vec<String>)> {
+        let rete_rule = Self::convert_rule_to_rete(rule)?;
+        let dependencies = Self::extract_dependencies(&rete_rule);
+        Ok((rete_rule, dependencies))
+    }
+
     /// Convert GRL Rule to TypedReteUlRule
     fn convert_rule_to_rete(rule: Rule) -> Result<TypedReteUlRule> {
         // Convert ConditionGroup to ReteUlNode
